@@ -196,8 +196,19 @@ class Gen(object):
             self.emit(ind, self.texpr(defined))
             return defined, True
         if c == 'del':
-            v = r.choice(sorted(defined))
-            self.emit(ind, 'del %s' % v)
+            cands = sorted(defined - set(PARAMS)) or sorted(defined)
+            v = r.choice(cands)
+            k = r.random()
+            if o.mutation and k < 0.3:
+                # several targets, one of which may raise (IndexError) before / after the name is deleted
+                tg = ['m[%d]' % r.choice([0, 7]), v]
+                r.shuffle(tg)
+                self.emit(ind, 'del %s' % ', '.join(tg))
+            elif o.reads == 'any' and k < 0.5:
+                v = r.choice(self.vars)            # possibly unbound: deleting it raises
+                self.emit(ind, 'del %s' % v)
+            else:
+                self.emit(ind, 'del %s' % v)
             return defined - {v}, True
         if c == 'break':
             self.emit(ind, 'break')
